@@ -5,6 +5,7 @@
 -/
 import XotModel.Driver.Entity
 import XotModel.Driver.Tree
+import XotModel.Driver.Compare
 import XotModel.Driver.Forest
 import XotModel.Driver.Fspec
 import XotModel.Driver.IdMap
@@ -16,6 +17,7 @@ def dispatch (st : DState) (line : String) : DState × String :=
   | "vocab" :: rest => (handleVocab st rest).getD (st, "bad-request")
   | "entity" :: rest => (st, (handleEntity rest).getD "bad-request")
   | "tree" :: rest => (st, (handleTree rest).getD "bad-request")
+  | "cmp" :: rest => (st, (handleCmp st rest).getD "bad-request")
   | "idmap" :: rest => (handleIdMap st rest).getD (st, "bad-request")
   | _ => (st, "bad-request")
 
